@@ -1,6 +1,7 @@
 (* LRTDP.v — C04: msdm/algorithms/lrtdp.py (Labeled RTDP) as
    (i)  a certificate checker over the planner's final result (values with the heuristic as
-        default, solved labels, greedy actions, reported Q / policy / initial value) and exact
+        default, solved labels, the action returned at labelled states, reported Q / policy /
+        initial value) and exact
         side certificates supplied by the harness (expected steps N, policy value, optimal value,
         all-policy weights W), and
    (ii) an abstract machine  (V, solved, recorded greedy action)  with the three operations the
@@ -57,7 +58,8 @@ Record lrout := mkLR {
   lV : nat -> T;                   (* res.V[s] (the heuristic where nothing was stored) *)
   lsolved : nat -> bool;           (* res.solved[s] *)
   ltouched : nat -> bool;          (* s in res.V.keys() *)
-  lpi : nat -> nat;                (* greedy action the planner computes at tear-down *)
+  lpi : nat -> nat;                (* action the planner returns at a labelled state: the greedy
+                                      action recorded when the state was labelled *)
   lQ : nat -> nat -> option T;     (* res.Q[s][a] where reported *)
   lret : nat -> nat -> T;          (* res.policy.action_dist(s) *)
   linit : T                        (* res.initial_value *)
@@ -268,14 +270,17 @@ Definition beqlist (a b : list bool) : bool :=
   (length a =? length b) && forallb (fun p => beqb (fst p) (snd p)) (combine a b).
 
 (* [guards hold along the whole log; every written value agrees; final labels agree;
-    final values agree] *)
+    final values agree; the action recorded when a state was labelled is the action the
+    implementation returns there (res.solved_action / res.policy)] *)
 Definition replay_check (tol : T) (h : list T) (ops : list (lop * T))
-           (solvedI : list bool) (VI : list T) : list bool :=
+           (solvedI : list bool) (VI : list T) (actI : list nat) : list bool :=
   match run_cmp tol (init_state h) ops with
-  | None => [false; false; false; false]
+  | None => [false; false; false; false; false]
   | Some (st, b) =>
     [true; b; beqlist (stSolved st) solvedI;
-     forallbn (nS m) (fun s => vclose tol (sV st s) (untab VI s))]
+     forallbn (nS m) (fun s => vclose tol (sV st s) (untab VI s));
+     forallbn (nS m) (fun s => if sSol st s && negb (absflag m s)
+                               then sAct st s =? nth s actI 0 else true)]
   end.
 
 (* diagnostic (not used by any theorem): index of the first op whose guard fails (code 1)
